@@ -42,6 +42,18 @@ def step (s : St) (line : String) : St × String :=
     let relevant := ["Executable", "Args", "Entrypoint", "Command", "Environment", "WorkingDir", "LivenessProbe",
       "ReadinessProbe", "RestartPolicy", "ShutDownParams", "DependsOn"]
     (s, m ++ " ||| " ++ (if relevant.contains f && impl == "true" then "bad:launch-relevant-field-ignored " ++ f else "ok"))
+  | ["cmpv", g, a, b] =>
+    -- two configurations that differ inside one launch-relevant nested value (probe kind / content /
+    -- timing, shutdown parameters, restart policy, dependency condition, environment entry):
+    -- variant numbers name distinct values, so the configurations are equal exactly when a = b
+    let groups : List (String × Nat) := [("rp", 8), ("lp", 8), ("sd", 5), ("rs", 5), ("dep", 4), ("env", 4)]
+    match groups.lookup g, a.toNat?, b.toNat? with
+    | some n, some x, some y =>
+      if x < n && y < n then
+        let m := if x == y then "true" else "false"
+        (s, m ++ " ||| " ++ (if impl == m then "ok" else "bad:launch-relevant-difference-ignored " ++ g ++ " " ++ a ++ " " ++ b))
+      else (s, "bad-op")
+    | _, _, _ => (s, "bad-op")
   | ["upinit", sp] =>
     let cur := parseSpec sp
     let insts := applyUpdate [] (projOf cur) 0
